@@ -428,19 +428,40 @@ def _standin():
                         "operator with operands as literals and as variables must give the same value or the same runtime error")
 
 
+def _standin_onoff():
+    """Second bounded stand-in: the corpus of units/optdiff.py on the CLI built from the tree under check and on a copy with the one
+    call `st.lines = optimize(st.lines);` disabled; C05 requires identical output, result and runtime error."""
+    import time as _t
+    from units import optdiff
+    t0 = _t.time()
+    bad, n = optdiff.differential()
+    if n == 0:
+        st, detail = E.UNDECIDED, "the copy with the optimizer disabled could not be built"
+    elif bad:
+        st, detail = E.FAILED, "optimized and unoptimized runs disagree: %r" % (bad,)
+    else:
+        st, detail = E.DISCHARGED, ""
+    return E.Obligation("C05.cli.optimizer_on_off.sampled", ["C05", "C01"], UNIT, "optimize (all passes) via the real CLI", "bounded: run on the real CLI",
+                        st, detail[:1500], _t.time() - t0, OPTF, "", "%d programs (e2e test programs, every binary operator inside an enclosing construct, discarded "
+                        "trapping expressions, control-flow shapes) run with the optimizer on and off" % n,
+                        "runs ONLY when some optimizer function could not be verified on this tree (outside the verifier's reach): every corpus program prints "
+                        "the same output and stops with the same error with and without optimization")
+
+
 def run(tier="quick"):
     """_run_core, plus: when a function of the optimizer is outside the verifier's reach on this tree
-    (UNDECIDED), a bounded differential run on the real CLI stands in (labelled bounded)."""
+    (UNDECIDED), two bounded differential runs on the real CLI stand in (labelled bounded)."""
     try:
         obs, info = _run_core(tier)
     except (E.Undecided, S.SliceError) as ex:
-        ob = _standin()
-        if ob.status == E.FAILED:
+        ob, ob2 = _standin(), _standin_onoff()
+        if ob.status == E.FAILED or ob2.status == E.FAILED:
             u = E.Obligation("C05.opt.unit", ["C05"], UNIT, "optimize_bytecode.rs", "verus/z3", E.UNDECIDED, str(ex)[:1500], 0, OPTF, "", None, "")
-            return [u, ob], dict(assumptions=[], trusted_base=[], checker_cmds=[], notes=dict(undecided=str(ex)[:500]))
+            return [u, ob, ob2], dict(assumptions=[], trusted_base=[], checker_cmds=[], notes=dict(undecided=str(ex)[:500]))
         raise
     if any(o.status == E.UNDECIDED for o in obs):
         obs.append(_standin())
+        obs.append(_standin_onoff())
     # the optimizer's obligations also serve C01 (a wrong rewrite desynchronises the stack / mistypes an operand)
     # and, for the constant folds and the 3-line window they live in, C15 / C16 (literal operands behave like variables)
     for o in obs:
@@ -463,6 +484,8 @@ _core_replay = globals().get('replay')
 
 
 def replay(ob):
+    if ob.id == "C05.cli.optimizer_on_off.sampled":
+        return (True if ob.status == E.FAILED else None), dict(note="the obligation itself is a run on the real CLI; the disagreeing program is in verifier_output")
     if ob.id == "C05.cli.operand_forms.sampled" or _core_replay is None:
         from units import clidiff
         bad, n = clidiff.differential()
